@@ -140,7 +140,10 @@ def run_tlc(module, cfg, workers=None, simulate=None, depth=None, tlc_seed=None,
     -simulate num=..).  Records printed by PrintT(ToJson(x)) are collected in .records."""
     res = TlcResult()
     meta = tempfile.mkdtemp(prefix="verif_tlc_")
-    cmd = ["java", "-XX:+UseParallelGC", "-Xss16m"]
+    nw = workers or NCPU
+    # many single-worker TLC processes run side by side: keep each JVM small (GC threads, heap)
+    cmd = ["java", "-XX:+UseParallelGC", "-Xss16m", "-XX:ParallelGCThreads=%d" % max(2, min(8, nw)),
+           "-Xmx%dg" % (3 if nw <= 2 else 12)]
     if java_opts:
         cmd += java_opts
     cmd += ["-cp", TLA_CP, "tlc2.TLC", "-metadir", meta, "-noGenerateSpecTE",
@@ -296,7 +299,10 @@ def tmpdir():
     if _TMP is None:
         import atexit
         _TMP = tempfile.mkdtemp(prefix="verif_run_")
-        atexit.register(lambda: shutil.rmtree(_TMP, ignore_errors=True))
+        if not os.environ.get("VERIF_KEEP_TMP"):
+            atexit.register(lambda: shutil.rmtree(_TMP, ignore_errors=True))
+        else:
+            print("[tmp] keeping", _TMP)
     return _TMP
 
 
